@@ -42,6 +42,7 @@ TBegin == /\ l <= Len(Trace) /\ Ev.ev = "Begin" /\ l' = l + 1
 TRead ==
   /\ l <= Len(Trace) /\ Ev.ev = "Read" /\ l' = l + 1
   /\ Read(Ev.n)
+  /\ Ev.err # "panic"          \* a Read that panics is never a step
   /\ CASE lastErr' = "nil" -> Ev.err = "nil"
        [] lastErr' = "corrupted" -> Ev.err = "corrupted" /\ Ev.both
        [] lastErr' = "io" -> Ev.err = "io"
